@@ -429,7 +429,11 @@ func tokenOpNames(ts []int) []string {
 
 // sigBody is the signature without the instruction-set part: "<class>|oracle=<kind>[@site]".
 func sigBody(class string, f finding) string {
-	s := fmt.Sprintf("%s|oracle=%s", class, f.kind)
+	kind := f.kind
+	if strings.HasPrefix(kind, "diff-") {
+		kind = "differential" // which observable differs (status / return / logs / storage / accounts) is in the text
+	}
+	s := fmt.Sprintf("%s|oracle=%s", class, kind)
 	if f.kind == "panic" {
 		s += "@" + f.site
 	}
